@@ -240,9 +240,9 @@ Proof.
   - unfold step_conn_start. destruct (phase s); split; try apply ce_refl; now left.
   - (* ConnFirst *) unfold step_conn_first. destruct (phase s); try (split; [apply ce_refl|now left]).
     destruct (max_buffered <? f_len f); [unfold init_fail; st_simpl_goal; split; [apply ce_refl|now left]|].
-    set (s2 := match typed_handler cfg (f_typ f) with Some _ => _ | None => _ end).
+    set (s2 := match first_handler cfg (f_typ f) with Some _ => _ | None => _ end).
     assert (Hs2 : callers s2 = callers s /\ assigned s2 = assigned s).
-    { subst s2. destruct (typed_handler cfg (f_typ f)) as [k|]; [|split; reflexivity].
+    { subst s2. destruct (first_handler cfg (f_typ f)) as [k|]; [|split; reflexivity].
       destruct k; try (split; reflexivity).
       match goal with |- callers (ack_enqueue ?i ?x) = _ /\ _ => destruct (ack_enqueue_callers i x) as (A & B); rewrite A, B end.
       split; reflexivity. }
